@@ -540,3 +540,262 @@ theorem litstring_roundtrip (body ctx : Bytes) (hb : litBalanced body 0 = true) 
   simp [Nat.add_comm] <;> omega
 
 example : litBalanced [97, 40, 98, 41, 92, 41, 99] 0 = true := by decide
+
+/-! ## reals -/
+
+theorem accFrac_eq (limit : Nat) (fs : Bytes) (n d : Nat)
+    (hn : digitsVal fs n ≤ limit) (hd : d * 10 ^ fs.length ≤ limit) :
+    accFrac limit fs n d = some (digitsVal fs n, d * 10 ^ fs.length) := by
+  induction fs generalizing n d with
+  | nil => simp [accFrac, digitsVal]
+  | cons c t ih =>
+    simp only [digitsVal, List.foldl_cons] at hn
+    have hge := digitsVal_ge t (n * 10 + (c.toNat - 48))
+    simp only [digitsVal] at hge
+    simp only [List.length_cons, Nat.pow_succ] at hd
+    have hd10 : d * 10 ≤ d * (10 ^ t.length * 10) := by
+      apply Nat.mul_le_mul_left
+      have : 1 ≤ 10 ^ t.length := Nat.pow_pos (by decide)
+      calc 10 = 1 * 10 := by omega
+        _ ≤ 10 ^ t.length * 10 := Nat.mul_le_mul_right _ this
+    unfold accFrac
+    have h1 : ¬ (n * 10 > limit) := by omega
+    have h2 : ¬ (n * 10 + (c.toNat - 48) > limit) := by omega
+    have h3 : ¬ (d * 10 > limit) := by omega
+    simp only [h1, h2, h3, if_false]
+    have := ih (n * 10 + (c.toNat - 48)) (d * 10) hn (by
+      have : d * 10 * 10 ^ t.length = d * (10 ^ t.length * 10) := by
+        rw [Nat.mul_assoc, Nat.mul_comm 10]
+      omega)
+    rw [this]
+    simp only [digitsVal, List.foldl_cons, List.length_cons, Nat.pow_succ]
+    congr 2
+    rw [Nat.mul_assoc, Nat.mul_comm 10]
+
+/-- **`real_spec`**: `RealP` on sign ++ digits ++ '.' ++ digits ++ context (either digit run may be
+    empty), whenever numerator and denominator fit an `i128`: the value is the pair
+    (± the integer written by all the digits, 10^(number of fraction digits)), cursor after the
+    last fraction digit. -/
+theorem real_spec (sg : Sign) (ds fs ctx : Bytes)
+    (hds : ∀ y ∈ ds, isDigit y = true) (hfs : ∀ y ∈ fs, isDigit y = true)
+    (hctx : ∀ y, ctx.head? = some y → isDigit y = false)
+    (hfit : digitsVal (ds ++ fs) 0 ≤ i128Max) (hden : 10 ^ fs.length ≤ i128Max) :
+    realP (sg.bytes ++ ds ++ [46] ++ fs ++ ctx) 0 =
+      (.ok ⟨(sg.apply (digitsVal (ds ++ fs) 0), 10 ^ fs.length), 0, sg.bytes.length + ds.length + 1 + fs.length⟩,
+        sg.bytes.length + ds.length + 1 + fs.length) := by
+  unfold realP
+  have hs : signPrefix (sg.bytes ++ ds ++ [46] ++ fs ++ ctx) 0 = (decide (sg = .minus), sg.bytes.length) := by
+    have : sg.bytes ++ ds ++ [46] ++ fs ++ ctx = sg.bytes ++ (ds ++ [46] ++ fs ++ ctx) := by simp [List.append_assoc]
+    rw [this]
+    apply signPrefix_spec
+    intro y hy
+    cases ds with
+    | nil =>
+      simp at hy; subst hy; decide
+    | cons d t =>
+      simp only [List.cons_append, List.head?_cons, Option.some.injEq] at hy
+      subst hy
+      have := hds d (List.mem_cons_self)
+      simp only [isDigit, Bool.and_eq_true, decide_eq_true_eq] at this
+      constructor
+      · intro h; subst h; exact absurd this.1 (by decide)
+      · intro h; subst h; exact absurd this.1 (by decide)
+  rw [hs]
+  simp only
+  have ha : allowed isDigit (sg.bytes ++ ds ++ [46] ++ fs ++ ctx) sg.bytes.length = (ds, sg.bytes.length + ds.length) := by
+    have := allowed_append isDigit sg.bytes ds ([46] ++ fs ++ ctx) hds (by intro y hy; simp at hy; subst hy; decide)
+    simpa [List.append_assoc] using this
+  rw [ha]
+  simp only
+  have hp : peek (sg.bytes ++ ds ++ [46] ++ fs ++ ctx) (sg.bytes.length + ds.length) = some 46 := by
+    have := peek_append (sg.bytes ++ ds) ([46] ++ fs ++ ctx)
+    simp only [List.length_append] at this
+    simpa [List.append_assoc] using this
+  simp only [hp, bne_self_eq_false, Bool.and_false, Bool.false_eq_true, if_false, beq_self_eq_true, if_true]
+  have hfit1 : digitsVal ds 0 ≤ i128Max := by
+    have := digitsVal_ge fs (digitsVal ds 0)
+    rw [digitsVal_append] at hfit
+    omega
+  rw [accDigits_eq _ _ _ hfit1]
+  simp only
+  have hb : allowed isDigit (sg.bytes ++ ds ++ [46] ++ fs ++ ctx) (sg.bytes.length + ds.length + 1) =
+      (fs, sg.bytes.length + ds.length + 1 + fs.length) := by
+    have := allowed_append isDigit (sg.bytes ++ ds ++ [46]) fs ctx hfs hctx
+    simp only [List.length_append, List.length_cons, List.length_nil] at this
+    exact this
+  rw [hb]
+  simp only
+  rw [accFrac_eq _ _ _ _ (by rw [← digitsVal_append]; exact hfit) (by simpa using hden)]
+  simp only [Nat.one_mul, ← digitsVal_append]
+  cases sg <;> simp [Sign.apply]
+
+example : realP [45, 46, 53, 48, 32] 0 = (.ok ⟨(-50, 100), 0, 4⟩, 4) := by decide
+
+/-! ## whitespace and comments: the loop equals a byte-wise skipper -/
+
+mutual
+/-- number of bytes of whitespace and comments at the head of a byte string -/
+def skipWs : Bytes → Nat
+  | [] => 0
+  | b :: t => if isWsEol b then 1 + skipWs t else if b == 37 then 1 + skipComment t else 0
+/-- inside a comment (after '%'): up to and including the LF, then more whitespace -/
+def skipComment : Bytes → Nat
+  | [] => 0
+  | b :: t => if b == 10 then 1 + skipWs t else 1 + skipComment t
+end
+
+theorem skipWs_takeWhile (l : Bytes) :
+    skipWs l = (l.takeWhile isWsEol).length + skipWs (l.dropWhile isWsEol) := by
+  induction l with
+  | nil => simp [skipWs]
+  | cons b t ih =>
+    by_cases hb : isWsEol b = true
+    · simp only [List.takeWhile_cons, List.dropWhile_cons, hb, if_true, List.length_cons]
+      rw [skipWs]; simp only [hb, if_true]; omega
+    · simp [List.takeWhile_cons, List.dropWhile_cons, hb]
+
+theorem skipComment_takeWhile (l : Bytes) :
+    skipComment l = (l.takeWhile (fun b => !(b == 10))).length +
+      (match l.dropWhile (fun b => !(b == 10)) with
+        | [] => 0
+        | _ :: r => 1 + skipWs r) := by
+  induction l with
+  | nil => simp [skipComment]
+  | cons b t ih =>
+    by_cases hb : b = 10
+    · subst hb; simp [skipComment, List.takeWhile_cons, List.dropWhile_cons]
+    · have : (b == 10) = false := by simp [hb]
+      rw [skipComment]
+      simp only [this, Bool.false_eq_true, if_false, List.takeWhile_cons, List.dropWhile_cons, Bool.not_false,
+        if_true, List.length_cons]
+      rw [ih]; omega
+
+theorem takeWhile_dropWhile_drop (f : UInt8 → Bool) (l : Bytes) :
+    l.dropWhile f = l.drop (l.takeWhile f).length := by
+  induction l with
+  | nil => simp
+  | cons b t ih => by_cases hb : f b = true <;> simp [List.takeWhile_cons, List.dropWhile_cons, hb, ih]
+
+theorem head_dropWhile_not (f : UInt8 → Bool) (l : Bytes) (b : UInt8) (h : (l.dropWhile f).head? = some b) :
+    f b = false := by
+  induction l with
+  | nil => simp at h
+  | cons a t ih =>
+    by_cases ha : f a = true
+    · simp only [List.dropWhile_cons, ha, if_true] at h; exact ih h
+    · simp only [List.dropWhile_cons, ha] at h
+      simp at h; subst h; simpa using ha
+
+/-- the whitespace run at the cursor: `allowed` returns it, and what follows does not start with whitespace -/
+theorem ws_run_spec (s : Bytes) (i : Nat) :
+    ∃ w, allowed isWsEol s i = (w, i + w.length) ∧
+      skipWs (s.drop i) = w.length + skipWs (s.drop (i + w.length)) ∧
+      (∀ b, (s.drop (i + w.length)).head? = some b → isWsEol b = false) := by
+  refine ⟨(s.drop i).takeWhile isWsEol, rfl, ?_, ?_⟩
+  · rw [skipWs_takeWhile, takeWhile_dropWhile_drop, List.drop_drop]
+  · intro b hb
+    rw [← List.drop_drop, ← takeWhile_dropWhile_drop] at hb
+    exact head_dropWhile_not _ _ _ hb
+
+/-- the text of a comment starting at `j` (after the '%', up to the LF or the end) -/
+def cmtBody (s : Bytes) (j : Nat) : Bytes := (s.drop (j + 1)).takeWhile (fun b => !(b == 10))
+
+theorem comment_eq (s : Bytes) (j : Nat) (hp : peek s j = some 37) :
+    comment s j =
+      if peek s (j + 1 + (cmtBody s j).length) == some 10 then
+        (.ok ⟨cmtBody s j, j, j + 1 + (cmtBody s j).length + 1⟩, j + 1 + (cmtBody s j).length + 1)
+      else (.ok ⟨cmtBody s j, j, j + 1 + (cmtBody s j).length⟩, j + 1 + (cmtBody s j).length) := by
+  unfold comment
+  simp only [hp, bne_self_eq_false, Bool.false_eq_true, if_false, untilB, allowed]
+  rfl
+
+/-- a comment at the cursor: `Comment::parse` succeeds, moves forward, and accounts for exactly
+    the bytes the byte-wise skipper attributes to it -/
+theorem comment_skip (s : Bytes) (j : Nat) (hp : peek s j = some 37) :
+    ∃ v k, comment s j = (.ok v, k) ∧ j < k ∧ k ≤ s.length ∧
+      skipWs (s.drop j) = (k - j) + skipWs (s.drop k) := by
+  have hj : j < s.length := peek_some_lt hp
+  have hd : s.drop j = 37 :: s.drop (j + 1) := by
+    rw [List.drop_eq_getElem_cons hj]
+    congr 1
+    have := hp; unfold peek at this
+    rw [List.getElem?_eq_getElem hj] at this
+    exact Option.some.inj this
+  have hnws : isWsEol 37 = false := by decide
+  have hsk : skipWs (s.drop j) = 1 + skipComment (s.drop (j + 1)) := by
+    rw [hd, skipWs]; simp [hnws]
+  have hcl : (cmtBody s j).length ≤ s.length - (j + 1) := by
+    have := takeWhile_length_le (fun b => !(b == 10)) (s.drop (j + 1)); simpa [cmtBody] using this
+  have hsc := skipComment_takeWhile (s.drop (j + 1))
+  rw [takeWhile_dropWhile_drop, List.drop_drop] at hsc
+  change skipComment (s.drop (j + 1)) = (cmtBody s j).length +
+    (match s.drop (j + 1 + (cmtBody s j).length) with | [] => 0 | _ :: r => 1 + skipWs r) at hsc
+  have hpk : peek s (j + 1 + (cmtBody s j).length) = (s.drop (j + 1 + (cmtBody s j).length)).head? := by
+    simp [peek, List.head?_drop]
+  rw [comment_eq s j hp]
+  cases hr : s.drop (j + 1 + (cmtBody s j).length) with
+  | nil =>
+    rw [hr] at hsc
+    have hlen : s.length ≤ j + 1 + (cmtBody s j).length := by
+      have := congrArg List.length hr; simp at this; omega
+    rw [if_neg (by simp [hpk, hr])]
+    simp only at hsc
+    refine ⟨_, _, rfl, by omega, by omega, ?_⟩
+    rw [hsk, hsc, hr]; simp [skipWs]; omega
+  | cons b r =>
+    have hb10 : b = 10 := by
+      have h := head_dropWhile_not (fun b => !(b == 10)) (s.drop (j + 1)) b (by
+        rw [takeWhile_dropWhile_drop, List.drop_drop]
+        change (s.drop (j + 1 + (cmtBody s j).length)).head? = some b
+        rw [hr]; rfl)
+      simpa using h
+    subst hb10
+    rw [hr] at hsc
+    have hlen : j + 1 + (cmtBody s j).length < s.length := by
+      have := congrArg List.length hr; simp at this; omega
+    have hr' : s.drop (j + 1 + (cmtBody s j).length + 1) = r := by
+      rw [← List.drop_drop, hr]; rfl
+    rw [if_pos (by simp [hpk, hr])]
+    simp only at hsc
+    refine ⟨_, _, rfl, by omega, by omega, ?_⟩
+    rw [hsk, hsc, hr']; omega
+
+/-- **`ws_loop_eq_skip`**: for every buffer and cursor, with the fuel the parser supplies, the
+    whitespace/comment loop stops exactly `skipWs` bytes further, and its `is_empty` flag stays
+    set iff nothing was skipped. -/
+theorem ws_loop_eq_skip (f : Nat) (s : Bytes) (i : Nat) (e : Bool) (hi : i ≤ s.length)
+    (hf : s.length + 1 - i ≤ f) :
+    wsEOLLoop f s i e = some (i + skipWs (s.drop i), e && (skipWs (s.drop i) == 0)) := by
+  induction f generalizing i e with
+  | zero => omega
+  | succ f ih =>
+    obtain ⟨w, haw, hsk, hhead⟩ := ws_run_spec s i
+    have hb := allowed_bound isWsEol s i hi
+    rw [haw] at hb
+    simp only at hb
+    unfold wsEOLLoop
+    rw [haw]
+    simp only
+    by_cases hp : peek s (i + w.length) = some 37
+    · obtain ⟨v, k, hc, hk1, hk2, hsk2⟩ := comment_skip s (i + w.length) hp
+      simp only [hp, beq_self_eq_true, if_true, hc]
+      rw [ih k false hk2 (by omega)]
+      have : skipWs (s.drop i) ≠ 0 := by omega
+      simp only [Bool.false_and, Option.some.injEq, Prod.mk.injEq]
+      exact ⟨by omega, by simp [this]⟩
+    · have hne : (peek s (i + w.length) == some 37) = false := by simpa using hp
+      simp only [hne, Bool.false_eq_true, if_false]
+      have hz : skipWs (s.drop (i + w.length)) = 0 := by
+        cases hr : s.drop (i + w.length) with
+        | nil => rfl
+        | cons b r =>
+          have h1 := hhead b (by rw [hr]; rfl)
+          have h2 : b ≠ 37 := by
+            intro h; subst h
+            apply hp
+            simp [peek, ← List.head?_drop, hr]
+          rw [skipWs]; simp [h1, h2]
+      simp only [Option.some.injEq, Prod.mk.injEq]
+      refine ⟨by omega, ?_⟩
+      congr 1
+      cases w <;> simp_all
